@@ -121,7 +121,7 @@ def parse_line(line):
               "segs": [] if t[10] == "-" else [int(x) for x in t[10].split(",")], "stall": None if t[11] == "-" else int(t[11]), "hv": int(t[12])}
     except ValueError:
         return None
-    if sc["cache"] not in ("n", "m", "d") or sc["ver"] not in ("11", "10", "10k") or sc["method"] not in ("GET", "HEAD") or sc["pieces"] is None:
+    if sc["cache"] not in ("n", "m", "d", "r") or sc["ver"] not in ("11", "10", "10k") or sc["method"] not in ("GET", "HEAD") or sc["pieces"] is None:
         return None
     if not (200 <= sc["status"] <= 599) or sc["end"] not in ("fin", "keep", "rst") or sc["hv"] not in (0, 1, 2, 3) or not (0 <= sc["seed"] < 1 << 30):
         return None
@@ -296,7 +296,7 @@ def origin_head(sc):
     reason = {200: "OK", 203: "Non-Authoritative Information", 204: "No Content", 206: "Partial Content", 301: "Moved Permanently", 304: "Not Modified",
               404: "Not Found", 500: "Internal Server Error", 503: "Service Unavailable"}.get(sc["status"], "Status")
     h = ["%s %d %s" % ("HTTP/1.0" if sc["hv"] == 3 else "HTTP/1.1", sc["status"], reason), "Date: " + rig.date_now()]
-    if sc["cache"] != "n":
+    if sc["cache"] not in ("n", "r"):
         h.append("Cache-Control: public, max-age=3600")
     if sc["hv"] == 1:
         h += ["Content-Type: application/octet-stream", 'ETag: "c01"']
@@ -477,6 +477,13 @@ class Harness:
         self.sq["m"] = rig.Squid(stage, conf=big)
         self.sq["d"] = rig.Squid(stage, conf="cache_dir ufs {dir}/cache 400 16 64\ncache_mem 0 MB\nmaximum_object_size_in_memory 0 KB\nmaximum_object_size 64 MB\n")
         self.sq["d"].init_dirs()
+        # "r": the request is re-forwarded. Two parents: the first answers every request with a complete 502 (Squid discards it and
+        # tries the next destination), the second is the scripted origin; what the client gets is decided by the second attempt alone
+        self.peer_a = Origin()
+        self.sq["r"] = rig.Squid(stage, conf="cache deny all\n"
+                                 "cache_peer 127.0.0.1 parent %d 0 no-query no-digest no-netdb-exchange name=pa\n"
+                                 "cache_peer 127.0.0.1 parent %d 0 no-query no-digest no-netdb-exchange name=pb\n"
+                                 "never_direct allow all\n" % (self.peer_a.port, self.origin.port))
         for s in self.sq.values():
             self._start(s)
         self.n = 0
@@ -486,6 +493,8 @@ class Harness:
         # connection a scenario left in a bad state: its outcome then speaks about the client connection only
         self.probe_origin = Origin()
         self.probe_origin.on("probe", lambda req: [("send", rig.simple_response(200, PROBE, [("Cache-Control", "no-store")]))])
+        self.origin.on("probe", lambda req: [("send", rig.simple_response(200, PROBE, [("Cache-Control", "no-store")]))])   # "r": probes travel via the parents too
+        self.peer_a.on("probe", lambda req: [("send", rig.simple_response(502, b"peer-a: bad gateway"))])
 
     def _start(self, s):
         for attempt in range(4):
@@ -568,10 +577,12 @@ class Harness:
         sq = self.sq[sc["cache"]]
         sid = self.new_sid()
         self.origin.on(sid, make_handler(sc))
+        if sc["cache"] == "r":
+            self.peer_a.on(sid, lambda req: [("send", rig.simple_response(502, b"peer-a: bad gateway"))])
         T = (8 + len(sc["wire"]) / 400000.0) * rig.VERIF_SLOW
         obs, r = self.fetch(sc, sq, sid, T)
         self.last = r
-        if sc["cache"] != "n":
+        if sc["cache"] not in ("n", "r"):
             obs2, r2 = self.fetch(sc, sq, sid, T)
             obs += " | " + obs2
         if not sq.alive():
@@ -590,3 +601,4 @@ class Harness:
             s.stop()
         self.origin.close()
         self.probe_origin.close()
+        self.peer_a.close()
